@@ -44,6 +44,21 @@ def find(d: Def):
     return uniq
 
 
+def find_single_precision(d: Def):
+    """In the parser (text -> table) no buffer of single precision: the id and parent-id fields pass through it too, and float32 holds integers exactly only up to 2**24."""
+    out = []
+    for c in own_nodes(d):
+        if isinstance(c, ast.Call):
+            fn = (dotted(c.func) or "").split(".")[-1]
+            dt = [k.value for k in c.keywords if k.arg == "dtype"] + (list(c.args[1:2]) if fn in ("array", "asarray", "empty", "zeros", "full", "fromiter", "loadtxt", "genfromtxt") else [])
+            if isinstance(c.func, ast.Attribute) and c.func.attr == "astype":
+                dt = list(c.args[:1])
+            for x in dt:
+                if any((isinstance(m, ast.Attribute) and m.attr in ("float32", "single")) or (isinstance(m, ast.Constant) and m.value in ("float32", "f4", "single")) for m in ast.walk(x)):
+                    out.append(c)
+    return out
+
+
 RULE_TEXT = ("no column of the table or the tree is cast to a type that cannot hold every admissible value (8 / 16 bit integers, float16, bool) on the "
              "read / construction path: node types and ids are arbitrary integers")
 
@@ -58,5 +73,14 @@ def run(ctx, col, quals: tuple, rule: str = "R-NARROW"):
             col.bad(rule, d.qualname, d.loc(c), "columns keep a type wide enough for every admissible value",
                     f"`{norm_src(c)[:80]}` casts to `{nm}`: values outside its range wrap around or are rounded without an error (a node type of 300 becomes 44 as uint8)",
                     stmt=f"narrow:{nm}", definite=True)
+    for q in quals:
+        d = ctx.repo.get_def(q)
+        if d.name != "parse_swc":
+            continue
+        for c in find_single_precision(d):
+            hits += 1
+            col.bad(rule, d.qualname, d.loc(c), "the parser keeps integer fields exact",
+                    f"`{norm_src(c)[:80]}` puts parsed fields into single precision inside the parser: ids and parent ids above 2**24 (large id offsets, big reconstructions) are rounded "
+                    f"to a neighbouring id, so parent links come back wrong", stmt="narrow:float32-buffer", definite=True)
     col.ok(rule, "narrowing-scan", "", f"{len(quals)} read / construction functions looked at for narrowing casts", f"{hits} hit(s)", stmt="narrowing-scan")
     return hits
